@@ -43,6 +43,7 @@ const (
 	iNonlocal
 	iDel
 	iChild
+	iImport // bind the name by an import statement: from vh import K7 as <name>
 	iLocals // log the one-letter names locals() shows (statement scopes only)
 	iRecall // call again a function defined earlier in an enclosing scope
 )
@@ -164,6 +165,8 @@ func (r *c03r) body(ind int, s *sscope) {
 			r.line(ind+1, "del "+it.name)
 			r.line(ind, "except NameError:")
 			r.line(ind+1, fmt.Sprintf("vh.log((%d, 'delunbound'))", it.id))
+		case iImport:
+			r.line(ind, "from vh import K7 as "+it.name)
 		case iLocals:
 			it.id = r.id()
 			r.line(ind, fmt.Sprintf("vh.log((%d, sorted([k for k in locals() if len(k) == 1])))", it.id))
@@ -255,7 +258,7 @@ func c03Collect(s *sscope) *c03info {
 	}
 	for _, it := range s.items {
 		switch it.k {
-		case iBind, iDel:
+		case iBind, iDel, iImport:
 			in.bound[it.name] = true
 		case iUse:
 			in.used[it.name] = true
@@ -285,7 +288,7 @@ func c03Static(s *sscope) string {
 	}
 	for _, it := range s.items {
 		switch it.k {
-		case iBind, iUse, iDel:
+		case iBind, iUse, iDel, iImport:
 			seen[it.name] = true
 		case iChild:
 			// a default value expression is a use in THIS scope
@@ -574,6 +577,9 @@ func (in *c03interp) run(f *c03frame) error {
 		case iBind:
 			c := in.target(f, it.name)
 			c.val, c.bound = itoa(it.id), true
+		case iImport:
+			c := in.target(f, it.name)
+			c.val, c.bound = "7", true
 		case iUse:
 			v, err := in.load(f, it.name)
 			if s.kind.exprOnly() {
@@ -945,6 +951,50 @@ func c03ParamForms(visit func(mod *sscope, size int)) {
 	}
 }
 
+// c03ClassBinds: a class body nested in a function binds x in each possible way (assignment,
+// import, del, global declaration, nothing) while the enclosing function binds x too, and a
+// method reads x: methods never see the class-level binding, they see the function's.
+func c03ClassBinds(visit func(mod *sscope, size int)) {
+	use := func() *sitem { return &sitem{k: iUse, name: "x"} }
+	binds := [][]*sitem{
+		{{k: iBind, name: "x"}}, {{k: iImport, name: "x"}}, {{k: iImport, name: "x"}, {k: iBind, name: "x"}}, {{k: iBind, name: "x"}, {k: iDel, name: "x"}},
+		{{k: iGlobal, name: "x"}, {k: iImport, name: "x"}}, {{k: iGlobal, name: "x"}, {k: iBind, name: "x"}}, {{k: iNonlocal, name: "x"}, {k: iImport, name: "x"}}, {},
+	}
+	for _, outerBind := range [][]*sitem{{{k: iBind, name: "x"}}, {{k: iImport, name: "x"}}, {}} {
+		for _, cb := range binds {
+			for _, nested := range []sckind{scDef, scLambda, scClass} {
+				for _, twoMethods := range []bool{false, true} {
+					cls := &sscope{kind: scClass}
+					for _, it := range cb {
+						c := *it
+						cls.items = append(cls.items, &c)
+					}
+					var inner *sscope
+					switch nested {
+					case scClass:
+						inner = &sscope{kind: scClass, items: []*sitem{use(), {k: iChild, child: &sscope{kind: scDef, items: []*sitem{use()}}}}}
+					default:
+						inner = &sscope{kind: nested, items: []*sitem{use()}}
+					}
+					cls.items = append(cls.items, use(), &sitem{k: iChild, child: inner})
+					if twoMethods {
+						cls.items = append(cls.items, &sitem{k: iChild, child: &sscope{kind: scDef, items: []*sitem{{k: iUse, name: "y"}, use()}}})
+					}
+					cls.items = append(cls.items, use(), &sitem{k: iLocals})
+					outer := &sscope{kind: scDef}
+					for _, it := range outerBind {
+						c := *it
+						outer.items = append(outer.items, &c)
+					}
+					outer.items = append(outer.items, &sitem{k: iBind, name: "y"}, &sitem{k: iChild, child: cls}, use())
+					mod := &sscope{kind: scModule, items: []*sitem{{k: iBind, name: "x"}, {k: iChild, child: outer}, use()}}
+					visit(mod, 10)
+				}
+			}
+		}
+	}
+}
+
 // c03Snapshots: a scope nested in a function reads a variable x of that function, takes a
 // locals() snapshot, has x rebound or deleted behind its back (by calling a sibling closure
 // that declares x nonlocal) and reads x again: every sequence of at most 4 such steps, in a
@@ -977,7 +1027,8 @@ func c03Snapshots(quick bool, visit func(mod *sscope, size int)) {
 		for _, sq := range seqs {
 			rebind := &sscope{kind: scDef, items: []*sitem{{k: iNonlocal, name: "x"}, {k: iBind, name: "x"}}}
 			unbind := &sscope{kind: scDef, items: []*sitem{{k: iNonlocal, name: "x"}, {k: iDel, name: "x"}}}
-			mid := &sscope{kind: mk}
+			// the scope reads x first, so that x is one of its free variables whatever follows
+			mid := &sscope{kind: mk, items: []*sitem{{k: iUse, name: "x"}}}
 			for _, st := range sq {
 				it := &sitem{k: st.k, name: "x"}
 				if st.k == iRecall {
@@ -1050,6 +1101,16 @@ func c03Run(rc *core.RunCtx) {
 			return
 		}
 		c03One(c, cloneScope(mod, nil), size, 96)
+	})
+	rc.Part = "classbinds"
+	c03ClassBinds(func(mod *sscope, size int) {
+		if rc.Expired() || rc.Done() {
+			return
+		}
+		if !rc.Take() {
+			return
+		}
+		c03One(c, cloneScope(mod, nil), size, 95)
 	})
 	rc.Part = "snapshots"
 	c03Snapshots(rc.Quick(), func(mod *sscope, size int) {
@@ -1183,7 +1244,7 @@ func init() {
 		Level: "model_checking",
 		Mode:  "ov",
 		Rule: "every scope tree with at most 4-5 (thorough 5-6) items and nesting depth 2-3 over scope kinds {module, def (with parameter, default value, duplicate parameter, called now / at the end of the enclosing scope), lambda, class, list comprehension, generator expression} and items {bind, use, global, nonlocal, del} of names {x} (and {x, y} at a smaller budget); every binding has a unique value and every use logs the value it sees. " +
-			"Oracle: an independent scope resolver + interpreter (declared sets per block, nearest enclosing function binding skipping class blocks, class/module fallback to globals, one cell per variable, late rebinding, defaults at definition time) and the compile-time rejections. Each accepted program with >= 2 scopes is additionally run under every iteration order (deviation bound 1) of every range-over-map in symtable/compile/vm. Non-trivial: at least one use is logged or the program must be rejected.",
+			"Families beyond the generic enumeration: parameter declaration forms x capture shapes; class bodies nested in a function that bind the name by assignment, import, del, global or nonlocal declaration while methods, lambdas and nested classes read it; snapshots (locals() against rebinding behind the scope's back); siblings; deep closure skeletons. Oracle: an independent scope resolver + interpreter (declared sets per block, nearest enclosing function binding skipping class blocks, class/module fallback to globals, one cell per variable, late rebinding, defaults at definition time) and the compile-time rejections. Each accepted program with >= 2 scopes is additionally run under every iteration order (deviation bound 1) of every range-over-map in symtable/compile/vm. Non-trivial: at least one use is logged or the program must be rejected.",
 		Run:         c03Run,
 		Assumptions: []string{"NameError family: UnboundLocalError and NameError are not distinguished", "name mangling and __class__ are not in the alphabet"},
 		Explanation: "exhaustive enumeration of bounded scope trees against a reference resolver/interpreter, crossed with exhaustive exploration of internal analysis orders",
